@@ -7,6 +7,7 @@ mod mir;
 mod report;
 mod rules;
 mod srcmodel;
+mod normalize;
 mod tables;
 
 use std::path::PathBuf;
@@ -84,6 +85,33 @@ fn main() {
             } else {
                 println!("not reproduced on the current tree");
                 std::process::exit(0)
+            }
+        }
+        Some("dump-fn") => {
+            // development aid: normalised compact text of the functions named `name` in a source file
+            let rel = args.get(2).cloned().unwrap_or_else(|| usage());
+            let name = args.get(3).cloned().unwrap_or_else(|| usage());
+            match srcmodel::load(&repo, &rel) {
+                Ok(src) => {
+                    for f in src.all_free_fns() {
+                        if f.sig.ident == name {
+                            println!("{}", srcmodel::tsc(&f.block));
+                        }
+                    }
+                    for i in src.impls() {
+                        for it in &i.items {
+                            if let syn::ImplItem::Fn(f) = it {
+                                if f.sig.ident == name {
+                                    println!("{}", srcmodel::tsc(&f.block));
+                                }
+                            }
+                        }
+                    }
+                }
+                Err(e) => {
+                    eprintln!("{}", e);
+                    std::process::exit(1)
+                }
             }
         }
         Some("dump-tokens") => {
